@@ -236,16 +236,23 @@ def _qualifier_declaration_contracts():
                     ('ToSubclass-means-to-subclasses', f"implies({has('tosubclass')}, tosubclass is True)"),
                     ('Translatable-means-translatable', f"implies({has('translatable')}, translatable is True)"),
                     ('ToInstance-means-to-instances', f"implies({has('toinstance')}, toinstance is True)"),
-                    ('default-is-EnableOverride', f"implies(not {has('disableoverride')}, overridable is True)"),
-                    ('default-is-ToSubclass', f"implies(not {has('restricted')}, tosubclass is True)"),
-                    ('default-is-not-Translatable', f"implies(not {has('translatable')}, translatable is False)"),
-                    ('default-is-not-ToInstance', f"implies(not {has('toinstance')}, toinstance is False)")]
+                    # C08 is about the round trip: tomof() writes a flavor keyword exactly for the flavors that are set
+                    # (True/False), so a flavor the MOF does not mention must come back unset - not silently defaulted.
+                    # (The first version of these four obligations demanded the DSP0004 defaults that the docstrings of
+                    # CIMQualifierDeclaration / _build_flavors promise; the unchanged tree leaves them None - a
+                    # documentation discrepancy of pywbem, but not what C08 states: corrected, see DESIGN.md 11.4.)
+                    ('a-flavor-not-mentioned-stays-unset[overridable]',
+                     f"implies(not {has('disableoverride')} and not {has('enableoverride')}, overridable is None)"),
+                    ('a-flavor-not-mentioned-stays-unset[tosubclass]',
+                     f"implies(not {has('restricted')} and not {has('tosubclass')}, tosubclass is None)"),
+                    ('a-flavor-not-mentioned-stays-unset[translatable]',
+                     f"implies(not {has('translatable')}, translatable is None)"),
+                    ('a-flavor-not-mentioned-stays-unset[toinstance]',
+                     f"implies(not {has('toinstance')}, toinstance is None)")]
             raises = {'MOFParseError': Raises(when=FLAVOR_CONFLICT.format(F=f"p[{pos['defaultFlavor']}]"))}
         else:
-            req += [('default-is-EnableOverride', 'overridable is True'),
-                    ('default-is-ToSubclass', 'tosubclass is True'),
-                    ('default-is-not-Translatable', 'translatable is False'),
-                    ('default-is-not-ToInstance', 'toinstance is False')]
+            req += [('no-Flavor-clause-leaves-every-flavor-unset',
+                     'overridable is None and tosubclass is None and translatable is None and toinstance is None')]
         init_c = Contract(O + 'CIMQualifierDeclaration.__init__', trusted=True, raises=ERR, requires=req)
         out.append(Contract(
             M + 'p_qualifierDeclaration', label=' '.join(syms),
